@@ -32,6 +32,7 @@ Families
      parameters / tags kept, round trip stable (for odd spellings: block, name and parameters survive)
   T  "nested tags": continuation lines of parameter / block / tag descriptions that begin with a tag word
      and a colon, indented deeper than (text), equal to or shallower than (tag) the part they follow
+     ... and descriptions of annotated parameters / Returns that begin with ':' / '::' (one delimiter only)
   B  every model built from an identifier menu x <=2 parameters x description menu x <=2 tags,
      under a covering set of layouts (quick) / a larger product (thorough)
 """
@@ -563,7 +564,7 @@ def run(ctx):
     for r in pmap(_work, rotate(chunks, ctx.seed)):
         ctx.merge(r)
     if not only or 'T' in only:
-        T = list(enumerate(B.nested_tag_cases()))
+        T = list(enumerate(B.nested_tag_cases() + B.colon_description_cases()))
         ctx.cov['bounds']['family_T'] = {'cases': len(T), 'layouts_per_case': len(nested_layouts())}
         for r in pmap(_work_T, rotate([T[i::16] for i in range(16) if T[i::16]], ctx.seed)):
             ctx.merge(r)
